@@ -769,6 +769,10 @@ class ModelRunner(object):
                     self.abort(reason="KeyboardInterrupt")
                     failed_count += 1
                     run_feature = False
+                    # -- ENSURE: Interrupted hook leaves no output capture active
+                    # (restores sys.stdout/stderr and the logging handlers).
+                    self.stop_capture()
+                    self.teardown_capture()
 
             # -- ALWAYS: Report run/not-run feature to reporters.
             # REQUIRED-FOR: Summary to keep track of untested features.
